@@ -194,13 +194,14 @@ class C01(Prop):
     level_note = 'Trusted: as C02–C05 and C07; that asyncio runs the sender/receiver tasks in one of the modelled orders is covered by the full-stack run only.'
     design_ref = '§5 C01'
     rule = ('3..12 concurrent interactions of the five models started by either side, payload sizes 0..4 fragments (data and metadata), fragment size none/64/100, message and byte-stream framing '
-            '(reads of 1..400 bytes), random delivery order between the two directions, publishers paced 1..3 elements per round, futures resolved late; non-trivial = at least one payload '
+            '(reads of 1..400 bytes), a quarter of the runs with a lease-honouring client whose requests wait for small grants (1..3) issued by the harness through the server\'s lease publisher, random delivery order between the two directions, publishers paced 1..3 elements per round, futures resolved late; non-trivial = at least one payload '
             'spanning several fragments while another interaction is active; distinct = distinct case seed; plus a reconnecting client (1..3 reconnects after EOF / transport error / while healthy, from the harness or from on_close) with a fragmented peer request or response left half-received on the first stream ids when the connection goes away (the caller may have cancelled): the requests and responses of the next connection must arrive exactly as sent')
     assumptions = []
 
     def cases(self, rng, tier):
         n = 400 if tier == 'quick' else 5000
-        out = [{'seed': rng.getrandbits(40), 'tcp': rng.random() < 0.5, 'frag': rng.choice([None, 64, 64, 100]), 'n': rng.randint(3, 12)} for _ in range(n)]
+        out = [{'seed': rng.getrandbits(40), 'tcp': rng.random() < 0.5, 'frag': rng.choice([None, 64, 64, 100]), 'n': rng.randint(3, 12),
+                'lease': rng.random() < 0.25} for _ in range(n)]
         # a reconnecting client: what the previous connection left half-received must not leak into the interactions of the next one
         for _ in range(80 if tier == 'quick' else 2000):
             out.append({'kind': 'reconnect', 'frag': 64, 'seed': rng.getrandbits(40), 'rounds': rng.randint(1, 3),
@@ -369,9 +370,17 @@ class C01(Prop):
             order.append((side, pid))
         sides = [Side('client', plans[0]), Side('server', plans[1])]
         lk = L.Link(loop, case['tcp'])
-        server = RSocketServer(lk.ends[1], handler_factory=sides[1].handler_class(sides[0]), fragment_size_bytes=case['frag'])
+        lease_kw_s, lease_kw_c = {}, {}
+        lease_sub = []
+        if case.get('lease'):
+            # the client honours leases: its requests wait for the server's grants (small ones, so that a backlog is released in instalments)
+            class LeasePub:
+                def subscribe(self, subscriber):
+                    lease_sub.append(subscriber)
+            lease_kw_s, lease_kw_c = {'lease_publisher': LeasePub()}, {'honor_lease': True}
+        server = RSocketServer(lk.ends[1], handler_factory=sides[1].handler_class(sides[0]), fragment_size_bytes=case['frag'], **lease_kw_s)
         client = RSocketClient(single_transport_provider(lk.ends[0]), handler_factory=sides[0].handler_class(sides[1]), fragment_size_bytes=case['frag'],
-                               keep_alive_period=timedelta(seconds=100000), max_lifetime_period=timedelta(seconds=1000000))
+                               keep_alive_period=timedelta(seconds=100000), max_lifetime_period=timedelta(seconds=1000000), **lease_kw_c)
         await client.connect()
         eps = [client, server]
         await loop.settle()
@@ -386,6 +395,10 @@ class C01(Prop):
                 side, p = todo.pop(0)
                 sides[side].start(eps[side], p)
                 did = True
+            if lease_sub and (rng.random() < 0.15 or (not todo and client._request_queue.qsize() > 0 and rng.random() < 0.5)):
+                from rsocket.lease import DefinedLease
+                lease_sub[0].on_next(DefinedLease(maximum_request_count=rng.choice([1, 1, 2, 3]), maximum_lease_time=timedelta(seconds=100000)))
+                did = True
             for s in (0, 1):
                 if rng.random() < 0.7 and await lk.deliver(rng.randint(0, 1), rng):
                     did = True
@@ -399,7 +412,7 @@ class C01(Prop):
                         fut.set_result(resp)
                     did = True
             await loop.settle()
-            if not did and not todo and not lk.pending(0) and not lk.pending(1) and not any(sd.pending_futures for sd in sides):
+            if not did and not todo and not lk.pending(0) and not lk.pending(1) and not any(sd.pending_futures for sd in sides) and not (lease_sub and client._request_queue.qsize() > 0):
                 idle += 1
                 if idle > 3 and all(p.done or p.cancelled or p.credit == 0 for sd in sides for p in sd.publishers):
                     break
@@ -480,6 +493,8 @@ class C01(Prop):
         return str(case['seed']) if case['frag'] else None
 
     def stats(self, case, obs):
+        if case.get('lease'):
+            yield 'lease-gated-client'
         if case.get('kind') == 'reconnect':
             yield 'kind=reconnect'
             for c in case['cut'][:case['rounds']]:
